@@ -509,6 +509,13 @@ impl<Writer: Write> Mp4Writer<Writer> {
         if self.finalized {
             return Err(Mp4WriterError::AlreadyFinalized);
         }
+        // The composition offset (pts - dts) is stored in a signed 32-bit ctts field. An
+        // offset that does not fit used to be truncated silently with 'as i32'; reject the
+        // frame instead (before any state is touched).
+        let composition_offset = i128::from(pts) - i128::from(dts);
+        if composition_offset > i128::from(i32::MAX) || composition_offset < i128::from(i32::MIN) {
+            return Err(Mp4WriterError::DurationOverflow);
+        }
         // DTS must be monotonically increasing (decode order)
         if let Some(prev) = self.video_prev_pts {
             if dts <= prev {
